@@ -54,6 +54,61 @@ def own_offset(rec, children):
     return None
 
 
+
+def session_histories(ctx):
+    """Eval-up-to in a session with history: the answer to an eval-up-to request must not depend on an earlier eval-up-to
+    request in the same session (one that stopped with an error, one that succeeded, one inside a test, one at top level).
+    Every ordered pair of a small set of requests is sent after `let x = 10` / a helper definition; the second answer is compared
+    with the answer the same request gets as the only eval-up-to of a session."""
+    import json as _json
+    setup = [_json.dumps({"method": "run", "input": "let x = 10"}), _json.dumps({"method": "run", "input": "fun dbl(n: Int): Int { n * 2 }"})]
+
+    def eut(src, marker):
+        return _json.dumps({"method": "eval_up_to", "src": src, "offset": src.index(marker)})
+    T_FAIL = "test t {\n  let x = 1\n  assert(x == 2)\n  x + 1\n}"
+    T_OK = "test u {\n  let x = 3\n  let y = x + 4\n  assert(y == 7)\n  y * 2\n}"
+    T_THROW = "test w {\n  let x = 5\n  dbl(x)\n  throw(\"boom\")\n  x\n}"
+    reqs = [("failing test, after the failure", eut(T_FAIL, "x + 1")), ("failing test, before the failure", eut(T_FAIL, "x == 2")),
+            ("passing test, let value", eut(T_OK, "x + 4")), ("passing test, last expression", eut(T_OK, "y * 2")),
+            ("throwing test, after the throw", eut(T_THROW, "x\n}")), ("throwing test, call before the throw", eut(T_THROW, "dbl(x)")),
+            ("top-level block, product", eut("{ x * 2 }", "x * 2")), ("top-level block, operand", eut("{ x * 2 }", "* 2")),
+            ("top-level call", eut("dbl(x + 1)", "dbl")), ("top-level call argument", eut("dbl(x + 1)", "x + 1"))]
+    # (a position inside a function body is answered with the arguments of the function's LAST call, so it legitimately depends
+    # on which requests called the function before: not part of this family)
+    jobs = [{"op": "session", "tick_limit": 100000, "requests": setup + [_json.dumps({"method": "run", "input": "dbl(4)"}), r]} for _, r in reqs]
+    pairs = [(i, j) for i in range(len(reqs)) for j in range(len(reqs))]
+    jobs += [{"op": "session", "tick_limit": 100000, "requests": setup + [_json.dumps({"method": "run", "input": "dbl(4)"}), reqs[i][1], reqs[j][1]]} for i, j in pairs]
+    res = ctx.pool.map(jobs, batch=16, timeout=60)
+
+    def answer(r, k):
+        if "responses" not in r or "panic" in r or len(r["responses"]) <= k:
+            return ("no answer", str(r.get("panic") or r)[:200])
+        out = []
+        for t in r["responses"][k]:
+            d = _json.loads(t)
+            kind = next(iter(d["kind"]))
+            if kind in ("printed", "printed_stderr"):
+                continue
+            v = d["kind"][kind]
+            if kind == "evaluate":
+                v = v["value"]
+                out.append(("Ok", v["Ok"]) if "Ok" in v else ("Err", tuple(e["message"] for e in v["Err"])))
+            else:
+                out.append((kind, _json.dumps(v)[:200]))
+        return tuple(out)
+    alone = [answer(r, 3) for r in res[:len(reqs)]]
+    if len({a for a in alone}) < 4:
+        raise Machinery(f"vacuous eval-up-to histories: answers {alone}")
+    for (i, j), r in zip(pairs, res[len(reqs):]):
+        got = answer(r, 4)
+        ctx.outcome("history pair: " + ("same answer" if got == alone[j] else "differs"))
+        if got != alone[j]:
+            ctx.violation(f"eval-up-to ({reqs[j][0]}) answers differently after an earlier eval-up-to ({reqs[i][0]})",
+                          {"requests": r if "responses" not in r else [setup, reqs[i][1], reqs[j][1]], "answer_alone": alone[j], "answer_after_history": got},
+                          cli_cmd="garden reftest-json-session <file with the request lines>")
+    return len(jobs)
+
+
 def run(ctx):
     quick = ctx.quick
     stride = int(os.environ.get("GV_DEV_STRIDE", "1"))
@@ -215,7 +270,8 @@ def run(ctx):
         else:
             d["cli_note"] = "CLI output differs from the in-process result (a caret comment line shifts later offsets; compare manually)"
     n_cases = sum(len(P["targets"]) for P in progs)
-    ctx.add(states=n_cases, transitions=n_exec + len(progs), nontrivial=n_judged)
+    n_hist = session_histories(ctx)
+    ctx.add(states=n_hist + n_cases, transitions=n_exec + len(progs), nontrivial=n_judged)
     ctx.bound("carets", n_cases)
     ctx.bound("judged", n_judged)
     P = progs[len(progs) // 3]
